@@ -170,7 +170,8 @@ if norm("#define PAD(v, p) ((v + (p) - 1) & (~((p) - 1)))") not in norm(tc):
     sys.exit("turbojpeg.c: PAD macro changed")
 tb = func(tc, "tj3TransformBufSize", "turbojpeg.c")
 need(tb, "retval = tj3JPEGBufSize(dstWidth, dstHeight, dstSubsamp);", "turbojpeg.c tj3TransformBufSize")
-need(tb, "retval += this->iccSize;", "turbojpeg.c tj3TransformBufSize")
+if "retval+=this->iccSize" not in tb:
+    sys.exit("turbojpeg.c tj3TransformBufSize: the instance ICC profile is no longer added (details: tools/gen_XformIcc.py)")
 
 
 def table(name):
